@@ -95,6 +95,37 @@ fn check_ids(ids: &[u8], big_endian: bool) -> CheckResult {
                 }
                 nt |= field.contains(&0) || want.len() < 4;
             }
+            // "with fewer than n bytes available it reports incomplete": the buffer ends inside each of the four id
+            // fields in turn (0..3 of its bytes present), without and with junk in front of the storage header; any
+            // hint must not exceed the bytes that are missing
+            let field_starts = [12usize, 20, 26, 30];
+            for junk in [&b""[..], &b"x"[..], &b"junkDLTjunk, more junk"[..]] {
+                let mut buf = junk.to_vec();
+                buf.extend_from_slice(&b);
+                for (i, fs) in field_starts.iter().enumerate() {
+                    for have in 0..4usize {
+                        let cut = junk.len() + fs + have;
+                        let r = guard(|| dlt_message(&buf[..cut], None, true).map(|(rest, pm)| (rest.len(), pm)))
+                            .map_err(|p| Violation::from_panic(&format!("dlt_message on {}", hex_short(&buf[..cut])), &p))?;
+                        match r {
+                            Err(dlt_core::parse::DltParseError::IncompleteParse { needed }) => {
+                                if let Some(n) = needed {
+                                    if n.get() > buf.len() - cut {
+                                        return Err(viol!(format!("ids:{}:hint", names[i]), "buffer ends {} bytes into the {}: hint {} exceeds the {} missing bytes", have, names[i], n, buf.len() - cut));
+                                    }
+                                }
+                            }
+                            other => {
+                                return Err(viol!(
+                                    format!("ids:{}:not-incomplete", names[i]),
+                                    "buffer ends {} bytes into the {} ({} junk bytes in front): expected incomplete, got {}; buffer={}",
+                                    have, names[i], junk.len(), short_dbg(&other), hex_short(&buf[..cut])
+                                ))
+                            }
+                        }
+                    }
+                }
+            }
             Ok(Pass::new(nt).class("ids"))
         }
         other => Err(viol!("ids:parse", "message with id bytes {} did not parse: {}", hex_short(ids), short_dbg(&other))),
